@@ -8,6 +8,8 @@ published layouts drives real values created by a Rust static library built from
  kind 5 iter    rows 'n script..'        advance {iter, func} n times (0 = item written)             -> '1 v' / '0 0' per call
  kind 6 slice   rows 'n seed i w'        read {data, len}; write w at i through the mutable view     -> len, contents
  kind 7 tags    rows 'k v'               COption/CResult written by Rust, read through {tag, payload}
+ kind 9 cb(C)  rows 'stop item..'       a callback BUILT BY C {context, func}, fed by Rust (feed_into)       -> count ; delivered ; not offered
+ kind 10 it(C) rows 'n script..'        an iterator BUILT BY C {iter, func: 0 = item}, advanced by Rust       -> '1 v' / '0 0' per call
  kind 8 sizes   sizeof/_Alignof of the C declarations vs size_of/align_of of the Rust types
 elem: 0 = 1 byte, 1 = 8 bytes (heap-owning token in vec, u64 elsewhere), 4 = 3-byte struct, 5 = 16-byte struct aligned to 16."""
 import os
@@ -66,8 +68,10 @@ def model_line(l):
         return vlib.case_line([11, elem], ops)
     if kind == 4:
         return vlib.case_line([15], [[0, 0, r[0], 3] + r[1:] for r in ops])
-    if kind == 5:
+    if kind == 5 or kind == 10:
         return vlib.case_line([15], [[1, r[0]] + [0] * r[0] + r[1:] for r in ops])
+    if kind == 9:       # a callback built by C, fed by Rust's FeedCallback::feed_into (method 2 of the feed model)
+        return vlib.case_line([15], [[0, 0, r[0], 2] + r[1:] for r in ops])
     return l
 
 
@@ -100,9 +104,11 @@ def gen_cases(rng, tier):
             for nn in range(0, 5):
                 items = [rng.range(0, vmax(elem)) for _ in range(nn)]
                 cases.append("16 4 %d | %s" % (elem, " ".join(map(str, [stop] + items))))
+                cases.append("16 9 %d | %s" % (elem, " ".join(map(str, [stop] + items))))      # the reverse direction: the callback is built by C
         for sc in ([], [5], [5, 6, 7], [5, -1, 6], [-1, 5]):
             for nops in range(1, 6):
                 cases.append("16 5 %d | %s" % (elem, " ".join(map(str, [nops] + sc))))
+                cases.append("16 10 %d | %s" % (elem, " ".join(map(str, [nops] + sc))))        # the reverse direction: the iterator is built by C
     for _ in range(n):
         elem = rng.choice([0, 1, 4, 5])
         # vec scripts
